@@ -479,6 +479,52 @@ def run_subquery_operand_case(p):
     return None
 
 
+def run_nextrule_case(p):
+    """C04 (rule trees with next_rule, which no other property names): a rule and a consequent rule attached with
+    next_rule; the answer is the same on every evaluation - also after an abandoned one - and it is: the first rule's
+    conclusion for every match of its condition plus the consequent rule's conclusion for every match of its own"""
+    from entity_query_language import symbolic_mode, rule_mode, let, infer, Add
+    from entity_query_language.rule import next_rule, refinement
+    O.reset_registry()
+    rng = random.Random(p['seed'])
+    (O.enable_caching if p.get('caching', True) else O.disable_caching)()
+    dom = O.make_domain(rng, p.get('n', 5))
+    c1 = O.gen_cond(rng, 1, 1, vocab=('cmp', 'name', 'truth'), neg=False)
+    c2 = O.gen_cond(rng, 1, 1, vocab=('cmp', 'name', 'truth'), neg=False)
+    c3 = O.gen_cond(rng, 1, 1, vocab=('cmp', 'name'), neg=False)
+    with_ref = rng.random() < 0.4
+    try:
+        with symbolic_mode():
+            x = let(type_=O.Item, domain=dom)
+            q = infer(v := let(type_=O.Built), O.build(c1, [x]))
+        with rule_mode(q):
+            Add(v, O.Built(a=x, tag='A'))
+            if with_ref:
+                with refinement(O.build(c3, [x])):
+                    Add(v, O.Built(a=x, tag='R'))
+            with next_rule(O.build(c2, [x])):
+                Add(v, O.BuiltB(a=x, tag='B'))
+        want = sorted([(i, ('R' if with_ref and O.holds(c3, {0: o}) else 'A')) for i, o in enumerate(dom) if O.holds(c1, {0: o})] +
+                      [(i, 'B') for i, o in enumerate(dom) if O.holds(c2, {0: o})])
+        outs = []
+        if p.get('abandon') and rng.random() < 0.5:
+            it = q.evaluate()
+            for _ in range(rng.randrange(1, 3)):
+                if next(it, None) is None:
+                    break
+            it.close()
+        for _ in range(3):
+            outs.append(sorted((dom.index(g.a), g.tag) for g in q.evaluate()))
+    except Exception as e:  # noqa
+        return {'exception': repr(e), 'trace': traceback.format_exc(limit=4), 'signature_kind': 'exception'}
+    finally:
+        O.enable_caching()
+    if outs != [want] * 3:
+        return {'c1': repr(c1), 'c2': repr(c2), 'c3': repr(c3) if with_ref else None, 'domain': repr(dom), 'got': outs, 'want': want,
+                'signature_kind': 'first-evaluation' if outs[0] != want else 're-evaluation'}
+    return None
+
+
 def run_the_nested_case(p):
     """C06 / C15: `the` used inside another query.  (a) correlated: the(entity(o, o.name == x.name)) over owners with
     distinct names has exactly one solution per x; its attribute is an operand of the enclosing description, so the
@@ -804,6 +850,32 @@ def run_reuse_case(p):
     dom = O.make_domain(rng, 4, falsy=True)
     attr = rng.choice(['size', 'name', 'flag'])
     falsy = {'size': 0, 'name': '', 'flag': False}[attr]
+    if p.get('shared_condition'):
+        # ONE comparison object standing at two places of the condition (the library negates in place, so no not_ here)
+        from entity_query_language import or_, and_
+        c0 = O.gen_cond(rng, 1, 0, falsy=True, vocab=('cmp',), neg=False)
+        a0 = O.gen_cond(rng, 1, 1, falsy=True, vocab=('cmp', 'name', 'truth'), neg=False)
+        b0 = O.gen_cond(rng, 1, 1, falsy=True, vocab=('cmp', 'name', 'truth'), neg=False)
+        shape = rng.choice(['or_or', 'or_and', 'and_or', 'or3'])
+        try:
+            with symbolic_mode():
+                x = let(type_=O.Item, domain=dom)
+                c = O.build(c0, [x])
+                A, B = O.build(a0, [x]), O.build(b0, [x])
+                cond, ref = {
+                    'or_or': (lambda: or_(c, or_(A, c)), lambda o: O.holds(c0, {0: o}) or O.holds(a0, {0: o})),
+                    'or_and': (lambda: or_(and_(c, A), and_(B, c)), lambda o: O.holds(c0, {0: o}) and (O.holds(a0, {0: o}) or O.holds(b0, {0: o}))),
+                    'and_or': (lambda: and_(or_(c, A), or_(B, c)), lambda o: O.holds(c0, {0: o}) or (O.holds(a0, {0: o}) and O.holds(b0, {0: o}))),
+                    'or3': (lambda: or_(A, c, B, c), lambda o: O.holds(a0, {0: o}) or O.holds(c0, {0: o}) or O.holds(b0, {0: o}))}[shape]
+                q = an(entity(x, cond()))
+            outs = [sorted(dom.index(r) for r in q.evaluate()) for _ in range(2)]
+            want = [i for i, o in enumerate(dom) if ref(o)]
+        except Exception as ex:  # noqa
+            return {'shape': shape, 'exception': repr(ex), 'trace': traceback.format_exc(limit=4), 'signature_kind': 'shared-condition:exception'}
+        if [sorted(set(o_)) for o_ in outs] != [want, want]:
+            return {'shape': shape, 'c': repr(c0), 'a': repr(a0), 'b': repr(b0), 'domain': repr(dom), 'got': outs, 'want': want,
+                    'signature_kind': 'shared-condition:' + shape}
+        return None
     if p.get('both_roles'):
         from entity_query_language import set_of, or_, and_
         other = O.gen_cond(rng, 1, 1, falsy=True, vocab=('cmp', 'name'), neg=False)
@@ -1005,6 +1077,8 @@ def _run_case(p):
         return run_fuzzq_case(p)
     if p.get('kind') == 'subquery_operand':
         return run_subquery_operand_case(p)
+    if p.get('kind') == 'nextrule':
+        return run_nextrule_case(p)
     if p.get('kind') == 'the_nested':
         return run_the_nested_case(p)
     if p.get('kind') == 'the':
@@ -1315,14 +1389,21 @@ def run_concat_case(p):
         all1 = [t for o in dom for t in o.tags]
         all2 = [t for o in dom for t in o.props['more']]
         other = ('cmp', rng.choice(['ge', 'le', 'eq', 'ne']), ('attr', 0, 'size'), ('lit', rng.choice([1, 2, 3])))
-        shape = rng.choice(['or_first', 'or_second', 'and_first', 'and_second', 'two', 'two_or', 'not_or'])
+        shape = rng.choice(['or_first', 'or_second', 'and_first', 'and_second', 'two', 'two_or', 'not_or', 'selected'])
         try:
             with symbolic_mode():
                 x = let(type_=O.Item, domain=dom)
                 y = let(type_=O.Item, domain=probe)
-                m1 = in_(y.size, concatenate(x.tags)) if rng.random() < 0.5 else contains(concatenate(x.tags), y.size)
+                cc = concatenate(x.tags)
+                m1 = in_(y.size, cc) if rng.random() < 0.5 else contains(cc, y.size)
                 oc = O.build(other, [y])
-                if shape == 'or_first':
+                if shape == 'selected':
+                    # the concatenation itself is a selected expression of a set_of, next to the probing variable
+                    from entity_query_language import set_of
+                    qs = an(set_of((y, cc), m1))
+                if shape == 'selected':
+                    cond, ref = m1, lambda o: o.size in all1
+                elif shape == 'or_first':
                     cond, ref = or_(m1, oc), lambda o: (o.size in all1) or O.holds(other, {0: o})
                 elif shape == 'or_second':
                     cond, ref = or_(oc, m1), lambda o: O.holds(other, {0: o}) or (o.size in all1)
@@ -1338,8 +1419,15 @@ def run_concat_case(p):
                         cond, ref = and_(m1, not_(m2)), lambda o: (o.size in all1) and (o.size not in all2)
                     else:
                         cond, ref = or_(m2, m1), lambda o: (o.size in all2) or (o.size in all1)
-                q = an(entity(y, cond))
-            outs = [list(q.evaluate()) for _ in range(2)]
+                q = an(entity(y, cond)) if shape != 'selected' else None
+            if shape == 'selected':
+                rows = list(qs.evaluate())
+                if any(list(r[cc]) != all1 for r in rows):
+                    return {'shape': shape, 'what': 'selected concatenation is not the combined list', 'all': all1,
+                            'got': repr([list(r[cc]) for r in rows]), 'signature_kind': 'selected:value'}
+                outs = [[r[y] for r in rows], [r[y] for r in qs.evaluate()]]
+            else:
+                outs = [list(q.evaluate()) for _ in range(2)]
             want = [o for o in probe if ref(o)]
         except Exception as e:  # noqa
             return {'shape': shape, 'exception': repr(e), 'trace': traceback.format_exc(limit=4), 'signature_kind': shape + ':exception'}
@@ -1841,6 +1929,14 @@ def run_rdrtree_case(p):
         norm = (lambda l: sorted(set(l), key=repr)) if (p.get('subset') or p.get('overridden')) else (lambda l: sorted(l, key=repr))
         want = norm(want)
         got = want
+        if p.get('abandon'):
+            # an evaluation that is abandoned after a few results leaves nothing behind (C04)
+            it = q.evaluate()
+            for _ in range(rng.randrange(1, 4)):
+                if next(it, None) is None:
+                    break
+            it.close()
+            shape += ':after-abandoned'
         for n in range(p.get('evals', 2)):          # the same answer on every evaluation
             got = norm(key(g) for g in q.evaluate())
             if got != want:
